@@ -1,4 +1,5 @@
 import Ruint.Model.DivKnuth
+import Ruint.Model.DivRecip
 /-!
 # `ruint::algorithms::div` and its public kernels, 64-bit limbs (`src/algorithms/div/*.rs`)
 
